@@ -2,6 +2,7 @@ package ref
 
 import (
 	"errors"
+	"regexp"
 	"fmt"
 	"math/big"
 	"strings"
@@ -75,6 +76,8 @@ type ParseResult struct {
 	// HasCall: an `identifier (` sequence occurs in the text (so static
 	// function faults may be reported instead of a syntax error).
 	HasCall bool
+	// HasZeroStep: a ":0]" slice step occurs in the text.
+	HasZeroStep bool
 }
 
 // binding powers (reference implementation's table, plus arithmetic)
@@ -144,8 +147,9 @@ func (p *parser) match(k tokKind) token {
 // Parse parses a JMESPath expression.
 func Parse(text string) (res ParseResult) {
 	if !utf8.ValidString(text) {
-		return ParseResult{Status: ParseSyntax, Err: "invalid UTF-8", HasCall: looksLikeCall(text)}
+		return ParseResult{Status: ParseSyntax, Err: "invalid UTF-8", HasCall: looksLikeCall(text), HasZeroStep: zeroStepRe.MatchString(text)}
 	}
+	res.HasZeroStep = zeroStepRe.MatchString(text)
 	toks, gaps, err := lex(text)
 	for i := 0; i+1 < len(toks); i++ {
 		if toks[i].k == tUnquoted && toks[i+1].k == tLparen {
@@ -1072,3 +1076,5 @@ func looksLikeCall(text string) bool {
 	}
 	return false
 }
+
+var zeroStepRe = regexp.MustCompile(`:\s*-?0+\s*\]`)
